@@ -237,7 +237,13 @@ def bounded(ctx):
             for r in rots:
                 t = s[r:] + s[:r]
                 evals += 1
-                obs = be.observe_entity(cls(CircularRecord(Seq(t), id="r")))
+                ent_ = cls(CircularRecord(Seq(t), id="r"))
+                first_ = be.observe_entity(ent_)
+                obs = be.observe_entity(ent_)       # the same wrapper asked again: the same answer
+                if obs != first_:
+                    viol.append(dict(name="requery_%s" % label, what="%s on %r: the same object answers %r, then %r" % (label, t[:70], first_, obs),
+                                     case=dict(cls=label, record=t)))
+                    break
                 if obs["valid"] is not True:
                     if s in records and obs["valid"] is False and r == 0 and False:
                         pass
